@@ -86,3 +86,32 @@ Print Assumptions C02_spec_plain.
 Print Assumptions C02_minimal_deterministic.
 Print Assumptions C02_build_exact.
 Print Assumptions C02_build_exact_verbose.
+
+(* NON-VACUITY (Proofs/NonVacuity.v, world W1): the hypotheses of C02_exact and C02_build_exact are
+   jointly satisfiable, and on that input the theorems say what one expects: for the test cases
+   ["ab","ac"] with default settings the model computes the expression a[bc] and the string
+   ^a[bc]$; its language is exactly {ab, ac}, for the expression and for the parsed string. *)
+From Grex Require Proofs.NonVacuity.
+Theorem C02_nonvacuous : exists e s,
+  NonVacuity.world_ok default_cfg NonVacuity.db1 SCPass1 NonVacuity.ws1 true e s
+  /\ (forall (cls : cp -> cp -> Prop) u, L_expr lit_cs cls e u <-> In u NonVacuity.ws1)
+  /\ (exists fl r, parse NonVacuity.is_ws_std s = Some (fl, r) /\ fl_i fl = false /\ fl_x fl = false
+        /\ forall (cls : cp -> cp -> Prop) u, Forall scalar u -> (L_rast lit_cs cls r u <-> In u NonVacuity.ws1)).
+Proof.
+  pose proof NonVacuity.W1 as W. do 2 eexists. split; [exact W|]. split.
+  - intros cls u.
+    exact (proj1 (C02_exact cls _ _ _ _ _ NonVacuity.W1_default eq_refl eq_refl
+                    (NonVacuity.w_nonempty _ _ _ _ _ _ _ W) (NonVacuity.w_oracle _ _ _ _ _ _ _ W)
+                    (NonVacuity.w_expr _ _ _ _ _ _ _ W)) u (or_intror NonVacuity.W1_K4)).
+  - destruct (C02_build_exact (fun _ _ => False) NonVacuity.isd NonVacuity.is_ws_std _ _ _ _ _ NonVacuity.W1_default eq_refl eq_refl
+                    (NonVacuity.w_nonempty _ _ _ _ _ _ _ W) (NonVacuity.w_scalar _ _ _ _ _ _ _ W)
+                    (NonVacuity.w_oracle _ _ _ _ _ _ _ W) NonVacuity.W1_printable eq_refl NonVacuity.ws_ok_std
+                    (NonVacuity.w_build _ _ _ _ _ _ _ W)) as (fl & r & P & I & X & _).
+    exists fl, r. split; [exact P|]. split; [exact I|]. split; [exact X|]. intros cls u Hu.
+    destruct (C02_build_exact cls NonVacuity.isd NonVacuity.is_ws_std _ _ _ _ _ NonVacuity.W1_default eq_refl eq_refl
+                    (NonVacuity.w_nonempty _ _ _ _ _ _ _ W) (NonVacuity.w_scalar _ _ _ _ _ _ _ W)
+                    (NonVacuity.w_oracle _ _ _ _ _ _ _ W) NonVacuity.W1_printable eq_refl NonVacuity.ws_ok_std
+                    (NonVacuity.w_build _ _ _ _ _ _ _ W)) as (fl' & r' & P' & _ & _ & A & _).
+    rewrite P in P'. injection P' as <- <-. exact (A u Hu (or_intror NonVacuity.W1_K4)).
+Qed.
+Print Assumptions C02_nonvacuous.
